@@ -49,6 +49,13 @@ def shapes_for(config):
         if other is not None:
             duplicate[other] = "zz"
         shapes.append(("dup-of-ok0", duplicate))
+    if config["preset"] == "fixed" and "name" in config["fields"] and "id" in config["fields"]:
+        # the same key with and without trailing blanks: equal once stored in fixed-width data
+        base = dict(shapes)["ok0"]
+        column = config["fields"].index("id")
+        variant = list(base)
+        variant[column] = base[column] + " "
+        shapes.append(("ok0-key-with-trailing-blank", variant))
     return [s for s in shapes if s[0] != "empty"] + [("empty", [])]
 
 
@@ -79,7 +86,9 @@ def judge(case, part):
     rejected_any = False
     for number, row in enumerate(rows, 1):
         before = target.getvalue()
-        event = model.feed(row)
+        # in fixed-width data the checks see the padded values (what a reader of the output will see)
+        seen_by_model = [c.ljust(d["width"]) for c, d in zip(row, decls)] if fixed and len(row) == len(decls) else row
+        event = model.feed(seen_by_model)
         try:
             writer.write_row(list(row))
             outcome = "written"
